@@ -958,14 +958,56 @@ def gen_spec(run_seed, prop, pool, hashseeds, knobs=None):
 
     max_ops = knobs.get("max_ops", 8 if prop == "C14" else 14)
     threads = []
-    storm = multi and rng.random() < 0.3 and strs
-    for t in range(nthreads):
+    race_kind = None
+    if multi and mols and valid_strs and (knobs.get("race") or rng.random() < 0.15):
+        # "race run": every client does the same kind of (cheap, warm) operation many
+        # times on different inputs, so that same-kind calls overlap all the time
+        race_kind = rng.choice(["read", "read", "canon", "serialize", "write", "parse", "pipeline"])
+        rstrs = [s for s in strs if s in valid_strs] or [rng.choice(valid_strs)]
+        for t in range(nthreads):
+            r2 = Random(H(run_seed, "race", t))
+            ops = []
+            n = r2.randint(8, 20)
+            if race_kind == "read":
+                ops = [{"op": "read", "text": r2.choice(mols)} for _ in range(n)]
+            elif race_kind == "parse":
+                ops = [{"op": "parse", "text": r2.choice(rstrs)} for _ in range(n)]
+            elif race_kind == "pipeline":
+                for _ in range(max(2, n // 3)):
+                    b = len(ops)
+                    ops += [{"op": "read", "text": r2.choice(mols)}, {"op": "canon", "arg": b}, {"op": "serialize", "arg": b + 1}]
+            else:
+                k = r2.randint(1, 3)
+                ops = [{"op": "read", "text": r2.choice(mols)} for _ in range(k)]
+                if race_kind in ("serialize", "write") and r2.random() < 0.7:
+                    ops += [{"op": "canon", "arg": j} for j in range(k)]
+                    base = k
+                else:
+                    base = 0
+                for _ in range(n):
+                    o = {"op": race_kind, "arg": base + r2.randrange(k)}
+                    if race_kind == "write":
+                        o["calc"] = False
+                    ops.append(o)
+            threads.append(ops)
+    storm = multi and rng.random() < 0.45 and strs and mols and not race_kind
+    storm_kind = rng.choice(["parse", "parse", "read", "pipeline"])
+    for t in range(nthreads if not race_kind else 0):
         ops = client(rng.randint(1, max_ops), Random(H(run_seed, "client", t)), t)
         if storm:
-            # all clients start by parsing the same strings (cold-cache contention)
-            head = [{"op": "parse", "text": s} for s in strs[: rng.randint(1, 2)]]
-            if rng.random() < 0.5:
-                rng.shuffle(head)
+            if storm_kind == "parse":
+                # all clients start by parsing the same strings (cold-cache contention)
+                head = [{"op": "parse", "text": s} for s in strs[: rng.randint(1, 2)]]
+                if rng.random() < 0.5:
+                    rng.shuffle(head)
+            elif storm_kind == "read":
+                # all clients are inside the molfile readers at the same time
+                head = [{"op": "read", "text": rng.choice(mols)} for _ in range(rng.randint(2, 4))]
+            else:
+                # all clients run the pipeline on different molecules at the same time
+                head = [{"op": "read", "text": rng.choice(mols)}, {"op": "canon", "arg": 0}, {"op": "serialize", "arg": 1}]
+                if rng.random() < 0.5:
+                    head.append({"op": "write", "arg": 1, "calc": False})
             shift = len(head)
             for o in ops:
                 for f in ("arg", "of", "reg"):
@@ -980,6 +1022,12 @@ def gen_spec(run_seed, prop, pool, hashseeds, knobs=None):
         # a long process history (size-bounded caches, counters): hundreds of earlier calls
         nw = rng.randint(300, knobs.get("max_long_history", 1200))
     warm = []
+    if race_kind:
+        # caches warm, so that the racing operations are short and overlap densely
+        nw = 0
+        warm = [{"op": "parse", "text": t} for t in sorted({o["text"] for ops in threads for o in ops if o["op"] == "parse"})][:6]
+        if not warm and rng.random() < 0.5:
+            warm = [{"op": "read", "text": mols[0]}, {"op": "canon", "arg": 0}, {"op": "serialize", "arg": 1}]
     if nw:
         long_history = nw >= 150
         if long_history:
@@ -1010,12 +1058,14 @@ def gen_spec(run_seed, prop, pool, hashseeds, knobs=None):
         "hashseed": hashseed,
         "trace": True,
         "profile": "wide" if rng.random() < 0.08 else "std",
-        "mean_burst": _wchoice(rng, [(2, 1), (5, 2), (12, 3), (40, 4), (120, 4), (400, 3), (1500, 2)]),
+        "mean_burst": _wchoice(rng, [(2, 2), (5, 3), (12, 3), (40, 2)]) if race_kind else _wchoice(rng, [(2, 1), (5, 2), (12, 3), (40, 4), (120, 4), (400, 3), (1500, 2)]),
+        "race_kind": race_kind,
         "sched_seed": rng.randrange(1 << 30),
         "schedule": None,
         "gc_auto": rng.choice([None, None, None, [700, 10, 10], [100, 5, 5], [20, 2, 2]]),
         "stall": rng.randrange(nthreads) if (cls == "D" and rng.random() < 0.3) else None,
         "clock_start": rng.choice(_CLOCKS) if rng.random() < 0.5 else float(rng.randrange(0, 4102444800)),
+        "focus_conflicts": rng.random() < (0.8 if race_kind else 0.5),
         "fs_mtime_gran": rng.choice([1e-9, 1e-6, 1e-3, 1.0, 1.0, 2.0, 2.0]),
         "texts": {t: pool.texts[t] for t in sorted(used)},
         "files": files,
